@@ -56,6 +56,9 @@ CHECKS = {
  "C15": dict(level="model_checking", design="4/C15", technique="TLA+ DnsRoute: exhaustive MC (TLC) of permutation/case invariance over small tables + TLC trace validation (ForwardTrace) of the real DnsService with one scripted upstream per route",
    text="TLC proves on the DnsRoute model that the outcome is invariant under permutation of routes and suffixes and under the case of the name, total, and a server failure without route; for generated tables (1..6 routes x 0..4 suffixes, nested/sibling/empty suffixes, some in upper case) in two permutations and names in lower/upper/mixed case with and without RD, the rcode seen by a real client and the upstream that received the question must match DnsRoute!Outcomes.",
    note="each query carries a distinct (name, type) so the receiving upstream can be attributed"),
+ "C17": dict(level="model_checking", design="4/C17", technique="TLA+ Radv (what an advertisement must decode to, per erbium.conf(5) and RFC 4861/8106/8781/8910): TLC checks the model's field lemmas (MC_Radv) and derives, per recorded case, the expected advertisement and compares it with the harness's RFC decoding of what the real loader + builder + serialiser produced (RadvTrace)",
+   text="For generated interface configurations (every field absent/null/value, lifetimes at every field boundary up to 2^32, 0..16 prefixes with host bits, $self6 substitution, NAT64 lengths, URLs of 0..240 octets) the advertisement built by the real code is decoded by an independent RFC decoder and TLC decides equality with the configuration: header fields, option multiset, per-option content, layout (multiples of 8, reserved bits zero, host bits zero), clamped or rejected when a value does not fit its field.",
+   note="function level through the hook radv::verif_build_ra; the periodic scheduler and the raw ICMPv6 socket are not driven; there is no interleaving to explore, the MC part covers only the arithmetic lemmas of the model"),
 }
 NOT_APPLICABLE = []
 
